@@ -11,8 +11,8 @@ from sexpr import q
 from tracer import trace
 
 ID = "C03"
-THEOREMS = ["pick_is_candidate", "pick_ambiguous_raises", "pick_none_raises"]
-LEANCHECKER_MODULES = ["Fadl.Props.C03"]  # re-checked by leanchecker in the thorough tier
+THEOREMS = ["tokensTill_extent", "scanLine_step", "scanLine_newline", "pick_is_candidate", "pick_ambiguous_raises", "pick_none_raises"]
+LEANCHECKER_MODULES = ["Fadl.Props.C03", "Fadl.Props.C03Scan"]  # re-checked by leanchecker in the thorough tier
 RULE = (
     "generated source files (gen/layout.py) placing lambdas passed to Select/Where/SelectMany: single call; several calls "
     "on a line told apart by method name or by argument names; the same method and argument names twice on a line (must "
@@ -54,29 +54,63 @@ class Recorder:
         self.cands = []
         self.orig_get = ua._get_lambda_in_stream
         self.orig_find = ua._token_runner.find_identifier
+        self.orig_till = ua._token_runner.tokens_till
         self.last_key = None
+        self.extents = []      # per _get_lambda_in_stream: (key, texts of the tokens handed to the parser after `lambda`)
+        self.first = None      # (runner, key token, start token) of the scan that found the first `lambda`
         rec = self
 
         def find_identifier(self_, identifier, can_encounter_newline=True):
             r = rec.orig_find(self_, identifier, can_encounter_newline)
             rec.last_key = r[0].string if r[0] is not None else None
+            if "def" in identifier and r[1] is not None:
+                rec.first = (self_, r[0], r[1])
             return r
+
+        def tokens_till(self_, stop_condition):
+            got = []
+            rec.extents.append((rec.last_key, got))
+            for t in rec.orig_till(self_, stop_condition):
+                got.append(t.string)
+                yield t
 
         def get_lambda(t_stream, start_token):
             lda, nl = rec.orig_get(t_stream, start_token)
             rec.cands.append((rec.last_key, lda))
             return lda, nl
 
-        self.find_identifier, self.get_lambda = find_identifier, get_lambda
+        self.find_identifier, self.get_lambda, self.tokens_till = find_identifier, get_lambda, tokens_till
+
+    def scan_request(self):
+        "the tokens after the first `lambda` keyword (re-tokenized independently) and the key, for the model's scanLine"
+        import tokenize
+
+        if self.first is None or self.first[2].string != "lambda":
+            return None
+        runner, key_tok, start = self.first
+        toks = []
+        try:
+            for t in tokenize.generate_tokens(self.ua._line_string_reader(runner._source, runner._initial_line).readline):
+                toks.append(t)
+        except Exception:
+            pass  # the tokenizer gave up later than the scan needed (the scan itself would have failed otherwise)
+        idx = next((i for i, t in enumerate(toks) if t.start == start.start and t.string == "lambda"), None)
+        if idx is None:
+            return None
+        kinds = {tokenize.NAME: "name", tokenize.OP: "op", tokenize.NEWLINE: "newline", tokenize.NL: "nl", tokenize.COMMENT: "comment"}
+        body = " ".join(f"({kinds.get(t.type, 'other')} {q(t.string)})" for t in toks[idx + 1:])
+        return [q(key_tok.string) if key_tok is not None else "none", "(" + body + ")"]
 
     def __enter__(self):
         self.ua._token_runner.find_identifier = self.find_identifier
         self.ua._get_lambda_in_stream = self.get_lambda
+        self.ua._token_runner.tokens_till = self.tokens_till
         return self
 
     def __exit__(self, *a):
         self.ua._token_runner.find_identifier = self.orig_find
         self.ua._get_lambda_in_stream = self.orig_get
+        self.ua._token_runner.tokens_till = self.orig_till
 
 
 def run(ctx):
@@ -105,6 +139,7 @@ def run(ctx):
             return self._op("SelectMany", f, *a, **k)
 
     reqs, keep = [], []
+    scan_reqs, scan_keep = [], []
     n = ctx.n(300, 8000)
     for _ in range(n):
         text, expect = gen_layout(ctx.rng)
@@ -167,11 +202,22 @@ def run(ctx):
                 want = ("ok", str(next(i for i, (k, l) in enumerate(cands) if l is got[1]))) if got[0] == "ok" else got
                 reqs.append(("pick", [q(name), "(" + " ".join(q(a) for a in argnames) + ")", cs]))
                 keep.append(({"module": text, "operator": name}, want))
+                # ---- correspondence of the token scan: extents and keys of the lambdas of the logical line
+                sreq = rec.scan_request()
+                if sreq is not None:
+                    want_scan = "(" + " ".join(f"({q(k) if k is not None else 'none'} ({' '.join(q(x) for x in texts)}))" for k, texts in rec.extents) + ")"
+                    scan_reqs.append(("scanLine", sreq))
+                    scan_keep.append(({"module": text, "operator": name}, ("ok", want_scan)))
+                    ctx.dist["scan:lines-compared"] += 1
+                    ctx.dist[f"scan:lambdas-on-line={min(len(rec.extents), 4)}"] += 1
         finally:
             srcmod.drop_module(mod)
     for (case, want), m in zip(keep, ctx.driver.batch(reqs)):
         if tuple(m) != tuple(want):
             ctx.disagree("pickLambda", case, want, m)
+    for (case, want), m in zip(scan_keep, ctx.driver.batch(scan_reqs)):
+        if tuple(m) != tuple(want):
+            ctx.disagree("scanLine", case, want[1][:600], (m[0], m[1][:600]))
 
 
 def replay(ctx, case):
